@@ -9,8 +9,8 @@ CLAIMED = {
    "Every history up to the stated length over the 8-symbol alphabet, plus seeded-random histories (incl. cores > 65536 blocks), is executed through the public API on harness-owned storage and compared after every step with a list model; observations before/after every reopen are compared as a pure differential. Exploration is the honest level: nothing is claimed beyond the enumerated bound and the sampled histories.",
    "trusts the instrumented in-memory backend (cross-validated against the stock memory/disk backends by C14) and the list model (harness/src/model.rs)"),
  "C02": ("fault_enumeration",
-   "crash-point enumeration: every prefix of the journal of mutating storage operations x generated histories (bounded-exhaustive + proptest), before-or-after oracle + usability suffix + one level of nested crashes",
-   "For each generated history all crash points (journal prefixes) are enumerated, none sampled; the recovered core must equal the model before or after the call in progress and stay usable. Histories are bounded-exhaustive for short lengths and seeded-random beyond; writer and replica (proof application) histories.",
+   "crash-point enumeration: every prefix of the journal of mutating storage operations x generated histories (bounded-exhaustive + proptest), before-or-after oracle + usability suffix variants + one level of nested crashes + random crash chains",
+   "For each generated history all crash points (journal prefixes) are enumerated (only inside calls that issue more than 96 storage operations - flushes of batches of hundreds of blocks - interior points are sampled every 16th, counted in the evidence); the recovered core must equal the model before or after the call in progress and stay usable. Histories are bounded-exhaustive for short lengths and seeded-random beyond; writer and replica (proof application) histories; plus crash chains (many crashes along one history).",
    "assumes each storage operation is atomic and durable in issue order (given by the statement); crashes before the first build() returned are out of scope"),
  "C03": ("exploration",
    "writer/replica session PBT: exhaustive single-request family for all growth pairs n1<=n2<=N, all fetch orders for n<=5, seeded-random sessions (proptest), replica model from the writer's blocks, convergence loop",
